@@ -185,8 +185,12 @@ def run_property(prop, harnesses, tier, seed, jobs, text, assumptions, design_re
                 cfg.setdefault('time_budget', 150 if tier == 'quick' else 1500)
                 per_h[h['name']] = dict(h=h, ll=ll, cfg=cfg, results=[], t0=time.time())
                 f = pool.submit(run_job, ll, cfg, (), (), bool(h.get('split'))); pending[f] = h['name']
+            tlast = time.time()
             while pending:
-                done, _ = wait(list(pending), return_when=FIRST_COMPLETED)
+                done, _ = wait(list(pending), return_when=FIRST_COMPLETED, timeout=30)
+                if os.environ.get('VERIF_PROGRESS') and time.time() - tlast > 30:
+                    tlast = time.time()
+                    print('[progress %ds] jobs done %d pending %d' % (time.time() - t0, agg['jobs'], len(pending)), file=sys.stderr, flush=True)
                 for f in done:
                     hn = pending.pop(f); ph = per_h[hn]
                     kind, (prefix, forced), payload = f.result()
